@@ -94,6 +94,9 @@ def run_verus(unit, rlimit=None, use_cache=True, extra_args=None):
                 'map': None, 'wall_s': time.time() - t0, 'cached': False}
     text = open(rs).read()
     args = list(VERUS_ARGS) + (extra_args or [])
+    mrl = re.search(r'^// //@@ rlimit (\d+)', text, re.M)
+    if mrl and not rlimit:
+        rlimit = int(mrl.group(1))
     if rlimit:
         args += ['--rlimit', str(rlimit)]
     key = sha(text + '\n' + verus_version() + '\n' + ' '.join(args))
@@ -206,7 +209,11 @@ def attribute(res):
         return
     lines = res['src_lines']
     for e in res['errors']:
-        spans = [s for s in e['spans'] if s['file'].endswith('.rs') and not s['file'].startswith('/')]
+        local = os.path.basename(res.get('rs', ''))
+        for s_ in e['spans']:
+            if s_['file'] != local:
+                s_['file'] = '/' + s_['file'].lstrip('/')
+        spans = [s for s in e['spans'] if s['file'] == local]
         if not spans:
             spans = e['spans']
         prim = next((s for s in spans if s['primary']), spans[0] if spans else None)
